@@ -149,7 +149,7 @@ def run(eng, tier):
         ('fee-refund-sub', 'D(L-mono)', lambda e: ab(e, 'uint_Sub') and e['abort'][1][0] == 'sub' and e['abort'][2][0] == 'sub' and e['abort'][1][1] == e['abort'][2][1] == SUB(F(SOMEV(F(BID, 'fee')), 'amount'), F(BID, 'accumulated_fee'))),
         ('decimal-conversion', 'D(L-fit)', lambda e: ab(e, 'unwrap') and e['abort'][1][0] == 'rcall' and e['abort'][1][1] in ('from_u128', 'checked_div')),
         ('action-name-serialisation', 'D(unit enum serialises)', lambda e: is_unit_enum_serialisation(e)),
-        ('zero-amount-marker-transfer', 'I', lambda e: ab(e, 'unwrap') and 'transfer amount must be > 0' in e['key']),
+        ('zero-amount-marker-transfer', 'I', lambda e: is_generic_err_unwrap(e)),
     ]
     matched = check_table(eng, PROP, refs, V_, T, TA, 'a match request')
     if matched['size-above-min-of-both']:
